@@ -141,17 +141,6 @@ func matchPropFilter(filter PropFilter, comp *ical.Component) (bool, error) {
 func matchCompTimeRange(start, end time.Time, comp *ical.Component) (bool, error) {
 	// See https://datatracker.ietf.org/doc/html/rfc4791#section-9.9
 
-	// evaluate recurring components
-	rset, err := comp.RecurrenceSet(start.Location())
-	if err != nil {
-		return false, err
-	}
-	if rset != nil {
-		// TODO we can only set inclusive to true or false, but really the
-		// start time is inclusive while the end time is not :/
-		return len(rset.Between(start, end, true)) > 0, nil
-	}
-
 	// TODO handle more than just events
 	if comp.Name != ical.CompEvent {
 		return false, nil
@@ -172,12 +161,35 @@ func matchCompTimeRange(start, end time.Time, comp *ical.Component) (bool, error
 		return false, err
 	}
 
-	if !eventEnd.After(eventStart) {
-		// No or zero duration: start <= DTSTART AND end > DTSTART
-		return (start.IsZero() || !start.After(eventStart)) && (end.IsZero() || end.After(eventStart)), nil
+	dur := eventEnd.Sub(eventStart)
+	overlaps := func(instStart time.Time) bool {
+		if dur <= 0 {
+			// No or zero duration: start <= DTSTART AND end > DTSTART
+			return (start.IsZero() || !start.After(instStart)) && (end.IsZero() || end.After(instStart))
+		}
+		// start < DTEND AND end > DTSTART
+		return (start.IsZero() || start.Before(instStart.Add(dur))) && (end.IsZero() || end.After(instStart))
 	}
-	// start < DTEND AND end > DTSTART
-	return (start.IsZero() || start.Before(eventEnd)) && (end.IsZero() || end.After(eventStart)), nil
+
+	rset, err := comp.RecurrenceSet(loc)
+	if err != nil {
+		return false, err
+	}
+	if rset == nil {
+		return overlaps(eventStart), nil
+	}
+
+	// A recurring event matches if one of its instances overlaps the range
+	next := rset.Iterator()
+	for {
+		instStart, ok := next()
+		if !ok || (!end.IsZero() && !instStart.Before(end)) {
+			return false, nil
+		}
+		if overlaps(instStart) {
+			return true, nil
+		}
+	}
 }
 
 func matchPropTimeRange(start, end time.Time, field *ical.Prop) (bool, error) {
